@@ -212,9 +212,16 @@ structure UTxOModel where
 /-- what a service reports besides the UTxO content itself -/
 structure Aux where
   /-- hash reported next to an inline datum (Blockfrost `data_hash`, Kupo `datum_hash`, cli `inlineDatumhash`) -/
-  inlineHash : Option Bytes
+  inlineHash : Bytes
   /-- hash under which a reference script is reported (Blockfrost, Kupo) -/
   scriptHash : Bytes
+  deriving Inhabited
+
+/-- answers of the secondary endpoints, keyed by the hex hash in the URL: Kupo `GET /datums/{h}`; Kupo
+`GET /scripts/{h}`, Blockfrost `GET /scripts/{h}` merged with `/scripts/{h}/cbor` and `/scripts/{h}/json` -/
+structure Side where
+  datums : List (String × J)
+  scripts : List (String × J)
   deriving Inhabited
 
 /-- `TransactionInput.from_primitive([tx_id, index])` -/
@@ -245,7 +252,27 @@ def datumHexJ (d : Option Payload) : J :=
   | some (.bytes b) => .str (hexStr b)
   | _ => .null
 
-def plutusLang (n : Nat) : String := String.ofList ("plutus:v".toList ++ natDigits n)
+def plutusLang (n : Nat) : String := if n = 1 then "plutus:v1" else if n = 2 then "plutus:v2" else "plutus:v3"
+
+/-- the datum hash a service shows: the output's datum hash, or the hash of its inline datum -/
+def shownHash (aux : Aux) (u : UTxOModel) : Option Bytes :=
+  match u.datumHash with
+  | some h => some h
+  | none => match u.datum with
+    | some _ => some aux.inlineHash
+    | none => none
+
+/-- hex of a byte payload (a JSON payload is passed through) -/
+def payloadJ (p : Payload) : J :=
+  match p with
+  | .bytes b => .str (hexStr b)
+  | .json j => j
+
+/-- hash under which the reference script is listed, `null` without one -/
+def scriptHashJ (aux : Aux) (s : Option ScriptM) : J :=
+  match s with
+  | some _ => .str (hexStr aux.scriptHash)
+  | none => .null
 
 /-! ## Blockfrost (blockfrost.py:189-262) -/
 
@@ -255,31 +282,31 @@ def bfEntry (e : Bytes × Bytes × Int) : J :=
   .obj [("unit", .str (bfUnit e.1 e.2.1)), ("quantity", .str (intStr e.2.2))]
 
 def bfScriptType (lang : Nat) : String :=
-  if lang = 0 then "timelock" else String.ofList ("plutusV".toList ++ natDigits lang)
+  if lang = 0 then "timelock" else if lang = 1 then "plutusV1" else if lang = 2 then "plutusV2" else "plutusV3"
 
-/-- `GET /addresses/{a}/utxos` entry; `side` answers `GET /scripts/{h}` (+`/cbor`, `/json`) merged into one object -/
-def render_blockfrost (aux : Aux) (u : UTxOModel) : J × List (String × J) :=
+def bfScriptInfo (s : ScriptM) : J :=
+  .obj [("type", .str (bfScriptType s.lang)),
+        (match s.body with
+         | .bytes b => ("cbor", .str (hexStr b))
+         | .json j => ("json", j))]
+
+def bfSide (aux : Aux) (s : Option ScriptM) : Side :=
+  ⟨[], match s with
+       | some s => [(hexStr aux.scriptHash, bfScriptInfo s)]
+       | none => []⟩
+
+/-- `GET /addresses/{a}/utxos` entry (Blockfrost shows `data_hash` for an inline datum too) and the script
+endpoints -/
+def render_blockfrost (aux : Aux) (u : UTxOModel) : J × Side :=
   (.obj [("address", .str u.address), ("tx_hash", .str (hexStr u.txId)), ("tx_index", .num u.index),
          ("output_index", .num u.index),
          ("amount", .arr (.obj [("unit", .str "lovelace"), ("quantity", .str (intStr u.coin))]
                           :: (flatten u.ma).map bfEntry)),
          ("block", .str ""),
-         ("data_hash", match u.datumHash with
-            | some h => .str (hexStr h)
-            | none => match u.datum with
-              | some _ => optStr aux.inlineHash
-              | none => .null),
+         ("data_hash", optStr (shownHash aux u)),
          ("inline_datum", datumHexJ u.datum),
-         ("reference_script_hash", match u.script with
-            | some _ => .str (hexStr aux.scriptHash)
-            | none => .null)],
-   match u.script with
-   | some s => [(hexStr aux.scriptHash,
-       .obj [("type", .str (bfScriptType s.lang)),
-             (match s.body with
-              | .bytes b => ("cbor", .str (hexStr b))
-              | .json j => ("json", j))])]
-   | none => [])
+         ("reference_script_hash", scriptHashJ aux u.script)],
+   bfSide aux u.script)
 
 /-- loop body of `for item in amount` -/
 def bfItem (item : J) (st : Int × MultiAsset) : Res (Int × MultiAsset) := do
@@ -291,50 +318,70 @@ def bfItem (item : J) (st : Int × MultiAsset) : Res (Int × MultiAsset) := do
     let data ← fromHex unit
     let p := data.take 28
     let n := data.drop 28
-    if p.length ≠ 28 then throw .assertion       -- ScriptHash(data[:28])
-    if n.length > 32 then throw .assertion       -- AssetName(data[28:])
-    pure (st.1, put st.2 p n (← pyInt q))
+    -- ScriptHash(data[:28]), AssetName(data[28:]) : size assertions of ConstrainedBytes
+    if p.length = 28 ∧ n.length ≤ 32 then pure (st.1, put st.2 p n (← pyInt q)) else throw .assertion
 
 def bfAmount : List J → Int × MultiAsset → Res (Int × MultiAsset)
   | [], st => .ok st
   | item :: rest, st => do bfAmount rest (← bfItem item st)
 
+/-- `script_type.lower().startswith("plutusv")` -/
+def isPlutusType (ty : String) : Bool := (ty.toList.map Char.toLower).take 7 = "plutusv".toList
+
+/-- `int(script_type[-1])` -/
+def lastDigit (ty : String) : Res Int :=
+  match parseInt (ty.toList.drop (ty.toList.length - 1)) with
+  | some v => .ok v
+  | none => .error .value
+
 /-- `_get_script` -/
-def bfScript (side : List (String × J)) (h : String) : Res ScriptM := do
-  let s ← match J.lookup side h with
+def bfScript (side : Side) (h : String) : Res ScriptM := do
+  let s ← match J.lookup side.scripts h with
     | some s => pure s
     | none => throw Err.key
   let ty ← (← s.field "type").asStr
-  if (ty.toList.map Char.toLower).take 7 = "plutusv".toList then
-    let v ← match parseInt (ty.toList.drop (ty.toList.length - 1)) with   -- int(script_type[-1])
-      | some v => pure v
-      | none => throw Err.value
+  if isPlutusType ty then
+    let v ← lastDigit ty
     let b ← fromHex (← (← s.field "cbor").asStr)
     if 1 ≤ v ∧ v ≤ 3 then pure ⟨v.toNat, .bytes b⟩ else throw .value       -- PlutusScript.from_version
   else
     pure ⟨0, .json (← s.field "json")⟩                                     -- NativeScript.from_dict
 
-/-- `BlockFrostChainContext._utxos`, one `result`; `addr` is the queried address -/
-def parse_blockfrost (addr : String) (side : List (String × J)) (r : J) : Res UTxOModel := do
-  let (txid, index) ← txIn (← r.field "tx_hash") (← r.field "output_index")
-  let (coin, ma) ← bfAmount (← (← r.field "amount").asArr) (0, [])
+/-- `DatumHash.from_primitive(x) if x else None` -/
+def hashIfTruthy (dh : J) : Res (Option Bytes) :=
+  if dh.truthy then do pure (some (← constrainedJ 32 32 dh)) else pure none
+
+/-- `datum_hash = DatumHash.from_primitive(result.data_hash) if result.data_hash and result.inline_datum is None
+else None` -/
+def bfDatumHash (r : J) : Res (Option Bytes) := do
   let dh ← r.field "data_hash"
-  let datumHash ←
-    if dh.truthy then do
-      let inl ← r.field "inline_datum"
-      if inl.isNull then pure (some (← constrainedJ 32 32 dh)) else pure none
-    else pure none
-  let datum ←
-    if ← r.hasKey "inline_datum" then do
-      let inl ← r.field "inline_datum"
-      if inl.isNull then pure none else pure (some (Payload.bytes (← fromHex (← inl.asStr))))
-    else pure none
-  let script ←
-    if ← r.hasKey "reference_script_hash" then do
-      let rs ← r.field "reference_script_hash"
-      if rs.truthy then pure (some (← bfScript side (← rs.asStr))) else pure none
-    else pure none
-  pure ⟨txid, index, addr, coin, ma, datumHash, datum, script⟩
+  if dh.truthy then
+    let inl ← r.field "inline_datum"
+    if inl.isNull then pure (some (← constrainedJ 32 32 dh)) else pure none
+  else pure none
+
+/-- `if hasattr(result, "inline_datum") and result.inline_datum is not None: RawCBOR(bytes.fromhex(...))` -/
+def bfDatum (r : J) : Res (Option Payload) := do
+  if ← r.hasKey "inline_datum" then
+    let inl ← r.field "inline_datum"
+    if inl.isNull then pure none else pure (some (Payload.bytes (← fromHex (← inl.asStr))))
+  else pure none
+
+/-- `if hasattr(result, "reference_script_hash") and result.reference_script_hash: self._get_script(...)` -/
+def bfScriptRef (side : Side) (r : J) : Res (Option ScriptM) := do
+  if ← r.hasKey "reference_script_hash" then
+    let rs ← r.field "reference_script_hash"
+    if rs.truthy then pure (some (← bfScript side (← rs.asStr))) else pure none
+  else pure none
+
+/-- `BlockFrostChainContext._utxos`, one `result`; `addr` is the queried address -/
+def parse_blockfrost (addr : String) (side : Side) (r : J) : Res UTxOModel := do
+  let ti ← txIn (← r.field "tx_hash") (← r.field "output_index")
+  let cm ← bfAmount (← (← r.field "amount").asArr) (0, [])
+  let datumHash ← bfDatumHash r
+  let datum ← bfDatum r
+  let script ← bfScriptRef side r
+  pure ⟨ti.1, ti.2, addr, cm.1, cm.2, datumHash, datum, script⟩
 
 /-! ## Kupo asset identifiers (kupo.py:26-40), shared with Ogmios v5 -/
 
@@ -381,47 +428,46 @@ def dotParseValue (value : J) : Res (Int × MultiAsset) := do
 
 /-! ## Kupo (kupo.py:140-222) -/
 
-/-- `GET /matches/{a}?unspent` entry; `side` answers `GET /datums/{h}` and `GET /scripts/{h}` -/
-def render_kupo (aux : Aux) (u : UTxOModel) : J × List (String × J) :=
-  let dh : Option Bytes := match u.datumHash with
-    | some h => some h
-    | none => match u.datum with
-      | some _ => aux.inlineHash
-      | none => none
-  (.obj ([("transaction_index", .num 0), ("transaction_id", .str (hexStr u.txId)), ("output_index", .num u.index),
-          ("address", .str u.address), ("value", dotValue u), ("datum_hash", optStr dh)]
-         ++ (match dh with
-             | some _ => [("datum_type", .str (if u.datum.isSome then "inline" else "hash"))]
-             | none => [])
-         ++ [("script_hash", match u.script with
-                | some _ => .str (hexStr aux.scriptHash)
-                | none => .null),
-             ("created_at", .obj [("slot_no", .num 0), ("header_hash", .str "")]), ("spent_at", .null)]),
-   (match dh with
-    | some h => [("datums/" ++ hexStr h, match u.datum with
-        | some (.bytes b) => .obj [("datum", .str (hexStr b))]
-        | _ => .null)]
-    | none => [])
-   ++ (match u.script with
-       | some s => [("scripts/" ++ hexStr aux.scriptHash,
-           .obj [("language", .str (if s.lang = 0 then "native" else plutusLang s.lang)),
-                 ("script", match s.body with
-                    | .bytes b => .str (hexStr b)
-                    | .json _ => .str "")])]
-       | none => []))
+def kupoScriptInfo (s : ScriptM) : J :=
+  .obj [("language", .str (if s.lang = 0 then "native" else plutusLang s.lang)), ("script", payloadJ s.body)]
+
+def kupoSide (aux : Aux) (u : UTxOModel) : Side :=
+  ⟨match shownHash aux u with
+   | some h => [(hexStr h, match u.datum with
+       | some (.bytes b) => .obj [("datum", .str (hexStr b))]
+       | _ => .null)]
+   | none => [],
+   match u.script with
+   | some s => [(hexStr aux.scriptHash, kupoScriptInfo s)]
+   | none => []⟩
+
+/-- `GET /matches/{a}?unspent` entry and the datum / script endpoints.  Kupo lists an inline datum by its hash
+with `datum_type = "inline"`; for a datum hash whose preimage it has not seen, `GET /datums/{h}` answers `null` -/
+def render_kupo (aux : Aux) (u : UTxOModel) : J × Side :=
+  (.obj [("transaction_index", .num 0), ("transaction_id", .str (hexStr u.txId)), ("output_index", .num u.index),
+         ("address", .str u.address), ("value", dotValue u), ("datum_hash", optStr (shownHash aux u)),
+         ("datum_type", match shownHash aux u with
+            | some _ => .str (if u.datum.isSome then "inline" else "hash")
+            | none => .null),
+         ("script_hash", scriptHashJ aux u.script),
+         ("created_at", .obj [("slot_no", .num 0), ("header_hash", .str "")]), ("spent_at", .null)],
+   kupoSide aux u)
+
+/-- `s.startswith("plutus:v")` -/
+def startsPlutusV (s : String) : Bool := s.toList.take 8 = "plutus:v".toList
 
 /-- `int(s.removeprefix("plutus:v"))` -/
 def plutusVersion (lang : String) : Res Int :=
   let cs := lang.toList
-  let rest := if cs.take 8 = "plutus:v".toList then cs.drop 8 else cs
+  let rest := if startsPlutusV lang then cs.drop 8 else cs
   match parseInt rest with
   | some v => .ok v
   | none => .error .value
 
 /-- `_get_datum_from_kupo` (without the cache) -/
-def kupoDatum (side : List (String × J)) (h : J) : Res (Option Payload) := do
+def kupoDatum (side : Side) (h : J) : Res (Option Payload) := do
   let hs ← h.asStr
-  let r ← match J.lookup side ("datums/" ++ hs) with
+  let r ← match J.lookup side.datums hs with
     | some r => pure r
     | none => throw Err.key
   if r.truthy then
@@ -429,100 +475,116 @@ def kupoDatum (side : List (String × J)) (h : J) : Res (Option Payload) := do
     if !J.eqPrim d h then pure (some (.bytes (← fromHex (← d.asStr)))) else pure none
   else pure none
 
+/-- the reference-script part: `GET /scripts/{h}`, `PlutusScript.from_version` -/
+def kupoScript (side : Side) (sh : J) : Res (Option ScriptM) := do
+  if sh.truthy then
+    let hs ← sh.asStr
+    let s ← match J.lookup side.scripts hs with
+      | some s => pure s
+      | none => throw Err.key
+    let ver ← plutusVersion (← (← s.field "language").asStr)
+    if 1 ≤ ver ∧ ver ≤ 3 then
+      pure (some (ScriptM.mk ver.toNat (.bytes (← fromHex (← (← s.field "script").asStr)))))
+    else throw .value
+  else pure none
+
 /-- `KupoChainContextExtension._utxos_kupo`, one `result`; `none` when the entry is spent -/
-def parse_kupo (addr : String) (side : List (String × J)) (r : J) : Res (Option UTxOModel) := do
+def parse_kupo (addr : String) (side : Side) (r : J) : Res (Option UTxOModel) := do
   let txidJ ← r.field "transaction_id"
   let indexJ ← r.field "output_index"
   let spent ← r.field "spent_at"
   if spent.isNull then
-    let (txid, index) ← txIn txidJ indexJ
+    let ti ← txIn txidJ indexJ
     let value ← r.field "value"
     let _ ← value.field "coins"
-    let sh ← r.getN "script_hash"
-    let script ←
-      if sh.truthy then do
-        let hs ← sh.asStr
-        let s ← match J.lookup side ("scripts/" ++ hs) with
-          | some s => pure s
-          | none => throw Err.key
-        let ver ← plutusVersion (← (← s.field "language").asStr)
-        if 1 ≤ ver ∧ ver ≤ 3 then
-          pure (some (ScriptM.mk ver.toNat (.bytes (← fromHex (← (← s.field "script").asStr)))))
-        else throw .value
-      else pure none
+    let script ← kupoScript side (← r.getN "script_hash")
     let dhJ ← r.field "datum_hash"
-    let datumHash ← if dhJ.truthy then do pure (some (← constrainedJ 32 32 dhJ)) else pure none
+    let datumHash ← hashIfTruthy dhJ
     let dt ← r.getD "datum_type" (.str "inline")
+    -- `if datum_hash and result.get("datum_type", "inline")` : a `DatumHash` object is always truthy
     let datum ← if datumHash.isSome && dt.truthy then kupoDatum side dhJ else pure none
-    let (coin, ma) ← dotParseValue value
-    pure (some ⟨txid, index, addr, coin, ma, datumHash, datum, script⟩)
+    let cm ← dotParseValue value
+    pure (some ⟨ti.1, ti.2, addr, cm.1, cm.2, datumHash, datum, script⟩)
   else pure none
 
 /-! ## Ogmios v5 (ogmios_v5.py:325-369) -/
+
+def v5ScriptJ (s : Option ScriptM) : J :=
+  match s with
+  | some s => .obj [(plutusLang s.lang, payloadJ s.body)]
+  | none => .null
 
 /-- one element `[in_ref, output]` of the `utxo` query result -/
 def render_ogmios_v5 (u : UTxOModel) : J :=
   .arr [.obj [("txId", .str (hexStr u.txId)), ("index", .num u.index)],
         .obj [("address", .str u.address), ("value", dotValue u), ("datumHash", optStr u.datumHash),
-              ("datum", datumHexJ u.datum),
-              ("script", match u.script with
-                 | some s => .obj [(plutusLang s.lang, match s.body with
-                     | .bytes b => .str (hexStr b)
-                     | .json j => j)]
-                 | none => .null)]]
+              ("datum", datumHexJ u.datum), ("script", v5ScriptJ u.script)]]
+
+/-- `if "plutus:v2" in script: PlutusV2Script(...) elif "plutus:v1" in script: ... else: raise ValueError` -/
+def v5Script (sc : J) : Res (Option ScriptM) := do
+  if sc.truthy then
+    if ← sc.hasKey "plutus:v2" then
+      pure (some (ScriptM.mk 2 (.bytes (← fromHex (← (← sc.field "plutus:v2").asStr)))))
+    else if ← sc.hasKey "plutus:v1" then
+      pure (some (ScriptM.mk 1 (.bytes (← fromHex (← (← sc.field "plutus:v1").asStr)))))
+    else throw .value
+  else pure none
+
+/-- `if output["datum"] and output["datum"] != output["datumHash"]: RawCBOR(bytes.fromhex(output["datum"]))` -/
+def v5Datum (output : J) : Res (Option Payload) := do
+  let dJ ← output.field "datum"
+  if dJ.truthy then
+    let dh2 ← output.field "datumHash"
+    if !J.eqPrim dJ dh2 then pure (some (Payload.bytes (← fromHex (← dJ.asStr)))) else pure none
+  else pure none
+
+/-- `result[0], result[1]` -/
+def v5Pair (r : J) : Res (J × J) :=
+  match r with
+  | .arr (a :: b :: _) => .ok (a, b)
+  | .arr _ => .error .key          -- IndexError
+  | _ => .error .type
 
 /-- `_utxo_from_ogmios_result` -/
 def parse_ogmios_v5 (r : J) : Res UTxOModel := do
-  let (inRef, output) ← match r with
-    | .arr (a :: b :: _) => pure (a, b)
-    | .arr _ => throw Err.key          -- IndexError
-    | _ => throw Err.type
-  let (txid, index) ← txIn (← inRef.field "txId") (← inRef.field "index")
-  let value ← output.field "value"
+  let io ← v5Pair r
+  let ti ← txIn (← io.1.field "txId") (← io.1.field "index")
+  let value ← io.2.field "value"
   let _ ← value.field "coins"
-  let sc ← output.getN "script"
-  let script ←
-    if sc.truthy then do
-      if ← sc.hasKey "plutus:v2" then
-        pure (some (ScriptM.mk 2 (.bytes (← fromHex (← (← sc.field "plutus:v2").asStr)))))
-      else if ← sc.hasKey "plutus:v1" then
-        pure (some (ScriptM.mk 1 (.bytes (← fromHex (← (← sc.field "plutus:v1").asStr)))))
-      else throw .value
-    else pure none
-  let dhJ ← output.getN "datumHash"
-  let datumHash ← if dhJ.truthy then do pure (some (← constrainedJ 32 32 dhJ)) else pure none
-  let dJ ← output.field "datum"
-  let datum ←
-    if dJ.truthy then do
-      let dh2 ← output.field "datumHash"
-      if !J.eqPrim dJ dh2 then pure (some (Payload.bytes (← fromHex (← dJ.asStr)))) else pure none
-    else pure none
-  let (coin, ma) ← dotParseValue value
-  let address ← (← output.field "address").asStr
-  pure ⟨txid, index, address, coin, ma, datumHash, datum, script⟩
+  let script ← v5Script (← io.2.getN "script")
+  let datumHash ← hashIfTruthy (← io.2.getN "datumHash")
+  let datum ← v5Datum io.2
+  let cm ← dotParseValue value
+  let address ← (← io.2.field "address").asStr
+  pure ⟨ti.1, ti.2, address, cm.1, cm.2, datumHash, datum, script⟩
 
 /-! ## Ogmios v6 (ogmios_v6.py:257-306, after ogmios.statequery.QueryUtxo) -/
 
 def nestedName (nq : Bytes × Int) : String × J := (hexStr nq.1, .num nq.2)
 def nestedPolicy (pa : Bytes × Asset) : String × J := (hexStr pa.1, .obj (pa.2.map nestedName))
 
-/-- one element of the `queryLedgerState/utxo` result (absent optional fields are omitted) -/
+def v6ScriptJ (s : ScriptM) : J :=
+  .obj [("language", .str (if s.lang = 0 then "native" else plutusLang s.lang)),
+        (match s.body with
+         | .bytes b => ("cbor", .str (hexStr b))
+         | .json j => ("json", j))]
+
+def v6ValueJ (u : UTxOModel) : J :=
+  .obj (("ada", .obj [("lovelace", .num u.coin)]) :: u.ma.map nestedPolicy)
+
+/-- optional members are omitted when absent -/
+def optMember (k : String) (o : Option J) : List (String × J) :=
+  match o with
+  | some v => [(k, v)]
+  | none => []
+
+/-- one element of the `queryLedgerState/utxo` result -/
 def render_ogmios_v6 (u : UTxOModel) : J :=
   .obj ([("transaction", .obj [("id", .str (hexStr u.txId))]), ("index", .num u.index),
-         ("address", .str u.address),
-         ("value", .obj (("ada", .obj [("lovelace", .num u.coin)]) :: u.ma.map nestedPolicy))]
-        ++ (match u.datumHash with
-            | some h => [("datumHash", .str (hexStr h))]
-            | none => [])
-        ++ (match u.datum with
-            | some (.bytes b) => [("datum", .str (hexStr b))]
-            | _ => [])
-        ++ (match u.script with
-            | some s => [("script", .obj [("language", .str (if s.lang = 0 then "native" else plutusLang s.lang)),
-                 (match s.body with
-                  | .bytes b => ("cbor", .str (hexStr b))
-                  | .json j => ("json", j))])]
-            | none => []))
+         ("address", .str u.address), ("value", v6ValueJ u)]
+        ++ optMember "datumHash" (u.datumHash.map fun h => .str (hexStr h))
+        ++ optMember "datum" (u.datum.map payloadJ)
+        ++ optMember "script" (u.script.map v6ScriptJ))
 
 /-- inner loop `for token_name_hex, quantity in token.items()` -/
 def v6Inner (policyHex : String) : List (String × J) → MultiAsset → Res MultiAsset
@@ -545,6 +607,31 @@ def v6Outer : List (String × J) → MultiAsset → Res MultiAsset
 /-- `set(value.keys()) == {"ada"}` -/
 def onlyAda (kvs : List (String × J)) : Bool := !kvs.isEmpty && kvs.all fun kv => kv.1 = "ada"
 
+/-- `if script["language"].startswith("plutus:v"): PlutusScript.from_version(int(...), bytes.fromhex(script["cbor"]))
+else: raise ValueError` -/
+def v6Script (sc : J) : Res (Option ScriptM) := do
+  if sc.truthy then
+    let lang ← (← sc.field "language").asStr
+    if startsPlutusV lang then
+      let ver ← plutusVersion lang
+      let b ← fromHex (← (← sc.field "cbor").asStr)
+      if 1 ≤ ver ∧ ver ≤ 3 then pure (some (ScriptM.mk ver.toNat (.bytes b))) else throw .value
+    else throw .value
+  else pure none
+
+/-- `if utxo.datum and utxo.datum != utxo.datum_hash: RawCBOR(bytes.fromhex(utxo.datum))` -/
+def v6Datum (dJ dhJ : J) : Res (Option Payload) :=
+  if dJ.truthy && !J.eqPrim dJ dhJ then do pure (some (Payload.bytes (← fromHex (← dJ.asStr)))) else pure none
+
+/-- the value part: ADA-only when `set(value.keys()) == {"ada"}`, else the two nested loops -/
+def v6Value (value : J) : Res (Int × MultiAsset) := do
+  let lovelace ← (← value.getN "ada").getD "lovelace" (.num 0)
+  let kvs ← value.asObj
+  if onlyAda kvs then pure (← lovelace.asInt, [])
+  else
+    let ma ← v6Outer kvs []
+    pure (← lovelace.asInt, ma)
+
 def parse_ogmios_v6 (r : J) : Res UTxOModel := do
   -- ogmios.statequery.QueryUtxo._parse_QueryUtxo_response / ogmios.datatypes.Utxo.__init__
   let txidJ ← (← r.getN "transaction").getN "id"
@@ -556,51 +643,43 @@ def parse_ogmios_v6 (r : J) : Res UTxOModel := do
   let sc ← r.getN "script"
   let _ ← (← value.getN "ada").getN "lovelace"
   -- OgmiosV6ChainContext._utxo_from_ogmios_result
-  let (txid, index) ← txIn txidJ indexJ
-  let lovelace ← (← value.getN "ada").getD "lovelace" (.num 0)
-  let script ←
-    if sc.truthy then do
-      let lang ← (← sc.field "language").asStr
-      if lang.toList.take 8 = "plutus:v".toList then
-        let ver ← plutusVersion lang
-        let b ← fromHex (← (← sc.field "cbor").asStr)
-        if 1 ≤ ver ∧ ver ≤ 3 then pure (some (ScriptM.mk ver.toNat (.bytes b))) else throw .value
-      else throw .value
-    else pure none
-  let datumHash ← if dhJ.truthy then do pure (some (← constrainedJ 32 32 dhJ)) else pure none
-  let datum ←
-    if dJ.truthy && !J.eqPrim dJ dhJ then do pure (some (Payload.bytes (← fromHex (← dJ.asStr)))) else pure none
-  let kvs ← value.asObj
+  let ti ← txIn txidJ indexJ
+  let script ← v6Script sc
+  let datumHash ← hashIfTruthy dhJ
+  let datum ← v6Datum dJ dhJ
   let address ← addressJ.asStr
-  if onlyAda kvs then
-    pure ⟨txid, index, address, ← lovelace.asInt, [], datumHash, datum, script⟩
-  else
-    let ma ← v6Outer kvs []
-    pure ⟨txid, index, address, ← lovelace.asInt, ma, datumHash, datum, script⟩
+  let cm ← v6Value value
+  pure ⟨ti.1, ti.2, address, cm.1, cm.2, datumHash, datum, script⟩
 
 /-! ## cardano-cli (cardano_cli.py:411-483) -/
 
-def cliScriptType (lang : Nat) : String := String.ofList ("PlutusScriptV".toList ++ natDigits lang)
+def cliScriptType (lang : Nat) : String :=
+  if lang = 1 then "PlutusScriptV1" else if lang = 2 then "PlutusScriptV2" else "PlutusScriptV3"
+
+def cliScriptJ (s : Option ScriptM) : J :=
+  match s with
+  | some s => .obj [("script", match s.body with
+       | .bytes b => .obj [("type", .str (cliScriptType s.lang)), ("description", .str ""),
+                           ("cborHex", .str (hexStr b))]
+       | .json j => j),
+      ("scriptLanguage", .str "")]
+  | none => .null
+
+def cliKey (u : UTxOModel) : String := String.ofList (hexChars u.txId ++ '#' :: (intStr u.index).toList)
 
 /-- one `"txid#ix": {...}` member of `cardano-cli query utxo --out-file /dev/stdout`.  An inline datum is
-reported as detailed-schema JSON (`Payload.json`); a Plutus reference script as a text envelope whose `cborHex`
-payload (the CBOR byte string wrapping the script) is carried opaquely -/
+reported as detailed-schema JSON (`Payload.json`) next to `inlineDatumhash`; a Plutus reference script as a text
+envelope whose `cborHex` payload (the CBOR byte string wrapping the script) is carried opaquely -/
 def render_cardano_cli (aux : Aux) (u : UTxOModel) : String × J :=
-  (String.ofList (hexChars u.txId ++ '#' :: (intStr u.index).toList),
+  (cliKey u,
    .obj [("address", .str u.address), ("datum", .null), ("datumhash", optStr u.datumHash),
          ("inlineDatum", match u.datum with
-            | some (.json j) => j
-            | _ => .null),
+            | some p => payloadJ p
+            | none => .null),
          ("inlineDatumhash", match u.datum with
-            | some _ => optStr aux.inlineHash
+            | some _ => .str (hexStr aux.inlineHash)
             | none => .null),
-         ("referenceScript", match u.script with
-            | some s => .obj [("script", match s.body with
-                 | .bytes b => .obj [("type", .str (cliScriptType s.lang)), ("description", .str ""),
-                                     ("cborHex", .str (hexStr b))]
-                 | .json j => j),
-                ("scriptLanguage", .str "")]
-            | none => .null),
+         ("referenceScript", cliScriptJ u.script),
          ("value", .obj (u.ma.map nestedPolicy ++ [("lovelace", .num u.coin)]))])
 
 /-- `for asset_hex_name in utxo["value"][asset].keys()` -/
@@ -629,27 +708,43 @@ def cliScript (rs : J) : Res ScriptM := do
   else if ty = "PlutusScriptV2" then pure ⟨2, .bytes (← fromHex (← (← sj.field "cborHex").asStr))⟩
   else pure ⟨0, .json sj⟩
 
-/-- `CardanoCliChainContext._utxos`, one member of the result object -/
-def parse_cardano_cli (key : String) (utxo : J) : Res UTxOModel := do
-  let (txidS, ixS) ← match splitOn '#' key.toList with
+/-- `tx_id, tx_idx = tx_hash.split("#")`, `TransactionInput.from_primitive([tx_id, int(tx_idx)])` -/
+def cliTxIn (key : String) : Res (Bytes × Int) := do
+  let ab ← match splitOn '#' key.toList with
     | [a, b] => pure (a, b)
     | _ => throw Err.value
-  let ix ← match parseInt ixS with
+  let ix ← match parseInt ab.2 with
     | some i => pure i
     | none => throw Err.value
-  let txid ← txIdOf (String.ofList txidS)
-  let vkvs ← (← utxo.field "value").asObj
-  let (coinJ, ma) ← cliOuter vkvs (.num 0, [])
+  let txid ← txIdOf (String.ofList ab.1)
+  pure (txid, ix)
+
+/-- `DatumHash.from_primitive(utxo["datumhash"]) if utxo.get("datumhash") is not None else None` -/
+def cliDatumHash (utxo : J) : Res (Option Bytes) := do
   let dhJ ← utxo.getN "datumhash"
-  let datumHash ← if !dhJ.isNull then do pure (some (← constrainedJ 32 32 dhJ)) else pure none
+  if !dhJ.isNull then pure (some (← constrainedJ 32 32 dhJ)) else pure none
+
+/-- `if utxo.get("datum"): RawCBOR(...) elif utxo.get("inlineDatumhash"): RawPlutusData.from_dict(utxo["inlineDatum"])` -/
+def cliDatum (utxo : J) : Res (Option Payload) := do
   let dJ ← utxo.getN "datum"
-  let datum ←
-    if dJ.truthy then do pure (some (Payload.bytes (← fromHex (← dJ.asStr))))
-    else if (← utxo.getN "inlineDatumhash").truthy then do pure (some (Payload.json (← utxo.field "inlineDatum")))
-    else pure none
+  if dJ.truthy then pure (some (Payload.bytes (← fromHex (← dJ.asStr))))
+  else if (← utxo.getN "inlineDatumhash").truthy then pure (some (Payload.json (← utxo.field "inlineDatum")))
+  else pure none
+
+/-- `if utxo.get("referenceScript"): self._get_script(utxo["referenceScript"])` -/
+def cliScriptRef (utxo : J) : Res (Option ScriptM) := do
   let rs ← utxo.getN "referenceScript"
-  let script ← if rs.truthy then do pure (some (← cliScript rs)) else pure none
+  if rs.truthy then pure (some (← cliScript rs)) else pure none
+
+/-- `CardanoCliChainContext._utxos`, one member of the result object (`value.coin = ...` is an unchecked
+attribute assignment in Python; the model requires an integer there) -/
+def parse_cardano_cli (key : String) (utxo : J) : Res UTxOModel := do
+  let ti ← cliTxIn key
+  let cm ← cliOuter (← (← utxo.field "value").asObj) (.num 0, [])
+  let datumHash ← cliDatumHash utxo
+  let datum ← cliDatum utxo
+  let script ← cliScriptRef utxo
   let address ← (← utxo.field "address").asStr
-  pure ⟨txid, ix, address, ← coinJ.asInt, ma, datumHash, datum, script⟩
+  pure ⟨ti.1, ti.2, address, ← cm.1.asInt, cm.2, datumHash, datum, script⟩
 
 end Pyc.Backends
